@@ -3,7 +3,7 @@
 expected to catch it (quick tier, VERIF_REPO pointing at the worktree), record the verdict in seeded/MATRIX.md, revert."""
 import json, os, subprocess, sys, glob, time
 V = os.path.dirname(os.path.dirname(os.path.abspath(__file__)))
-OVERRIDE = {"C01-B": "C11", "C06-B": "C11"}
+OVERRIDE = {"C01-B": "C11", "C06-B": "C11", "C04-H": "C17"}  # history / auth-pipeline defects delivered under another property
 
 
 def sh(cmd, **kw):
